@@ -4,12 +4,15 @@ D1 inventory of every place an alignment can leave the pipeline; each is guarded
 D2 genic / intergenic siblings apply the same pre-filters
 D3 all sub-regions are processed (no early exit), final flush exists
 D4 the alignment statistics chain is a partition of the records
+D5 storage reset() completeness; duplicate search has no early exit
+D6 the sub-regions produced by coverage splitting tile the cluster (no gap, tail covered, never an empty list)
+D7 the in-memory storage's index slice is a superset of the overlapping alignments; BAM sibling fetches the closed region
 """
 import ast
 import re
 
 from ..engine.program import AnalysisError, dotted, src, walk_no_nested, call_name
-from ..engine import flow
+from ..engine import flow, linform, symexec
 
 AP = "src/alignment_processor.py"
 DSP = "src/dataset_processor.py"
@@ -350,6 +353,478 @@ def d5(prog, ctx):
         ctx.ok("D5", "src/multimap_resolver.py:%d" % fd.lineno, "find_duplicates compares every remaining pair (no break/return in the loops)")
 
 
+# ---------------------------------------------------------------------------
+# D6: the sub-region list tiles the cluster (symbolic walk with a ghost "covered up to" expression)
+# ---------------------------------------------------------------------------
+
+class _Unproved(Exception):
+    pass
+
+
+def _lin(e):
+    return linform.linform(e)
+
+
+def _diff(a, b):
+    la, lb = _lin(a), _lin(b)
+    out = dict(la)
+    for k, v in lb.items():
+        out[k] = out.get(k, 0) - v
+    return {k: v for k, v in out.items() if v != 0}
+
+
+def _const_diff(a, b):
+    """a - b as a number if the difference of the two linear forms is a constant, else None."""
+    d = _diff(a, b)
+    if set(d) <= {"1"}:
+        return d.get("1", 0)
+    return None
+
+
+def _strip_clamp(e, fn, bound_text):
+    """max(A, g0) -> A / min(A, g1) -> A when one operand is the cluster bound (clamping to the cluster never uncovers a read)."""
+    if isinstance(e, ast.Call) and isinstance(e.func, ast.Name) and e.func.id == fn and len(e.args) == 2 and not e.keywords:
+        a, b = e.args
+        if src(b) == bound_text:
+            return a, True
+        if src(a) == bound_text:
+            return b, True
+    return e, False
+
+
+class _Tiling:
+    """Simulates one syntactic path of split_coverage_regions.
+
+    State: env (local name -> substituted AST), appended (bool), E (AST: end of the last appended interval; g0 - 1 initially),
+    facts (list of (lhs, rhs) meaning lhs >= rhs collected from path conditions)."""
+
+    def __init__(self, L, g, fresh):
+        self.L = L
+        self.g0 = ast.parse("%s[0]" % g, mode="eval").body
+        self.g1 = ast.parse("%s[1]" % g, mode="eval").body
+        self.g = g
+        self.env = {}
+        self.appended = False
+        self.E = ast.BinOp(left=self.g0, op=ast.Sub(), right=ast.Constant(1))
+        self.facts = []
+        self.appends = []     # (lo, hi, E_before, stmt)
+        self.fresh = fresh
+        self.infeasible = False
+
+    # -- expression evaluation ------------------------------------------------
+    def ev(self, e):
+        e = symexec.subst(e, self.env)
+        return self._resolve(e)
+
+    def _resolve(self, e):
+        L = self.L
+        tiling = self
+
+        class R(ast.NodeTransformer):
+            def visit_IfExp(self, n):
+                t = n.test
+                neg = False
+                if isinstance(t, ast.UnaryOp) and isinstance(t.op, ast.Not):
+                    t, neg = t.operand, True
+                if isinstance(t, ast.Name) and t.id == L:
+                    truth = tiling.appended != neg
+                    return self.visit(n.body if truth else n.orelse)
+                return self.generic_visit(n)
+
+            def visit_Subscript(self, n):
+                # L[-1][1] -> E
+                if isinstance(n.value, ast.Subscript) and isinstance(n.value.value, ast.Name) and n.value.value.id == L \
+                        and src(n.value.slice) == "-1" and src(n.slice) == "1":
+                    if not tiling.appended:
+                        raise _Unproved("%s[-1] is read on a path where the list is still empty" % L)
+                    return symexec.clone(tiling.E)
+                return self.generic_visit(n)
+        return ast.fix_missing_locations(R().visit(e))
+
+    # -- statements -------------------------------------------------------------
+    def havoc(self, loop):
+        for n in ast.walk(loop):
+            if isinstance(n, ast.Name) and isinstance(n.ctx, ast.Store):
+                self.fresh[0] += 1
+                self.env[n.id] = ast.Name(id="%s_%d" % (n.id, self.fresh[0]), ctx=ast.Load())
+            if isinstance(n, ast.Call) and src(n.func) == "%s.append" % self.L:
+                raise _Unproved("%s.append inside a nested loop is not modelled" % self.L)
+
+    def stmt(self, st):
+        if isinstance(st, ast.Assign):
+            val = self.ev(st.value)
+            for t in st.targets:
+                if isinstance(t, ast.Name):
+                    if t.id == self.L:
+                        if not (isinstance(st.value, ast.List) and not st.value.elts):
+                            raise _Unproved("%s is rebound to something that is not an empty list" % self.L)
+                        self.appended = False
+                    else:
+                        self.env[t.id] = val
+                elif isinstance(t, ast.Subscript) and isinstance(t.value, ast.Name) and t.value.id == self.L:
+                    raise _Unproved("element assignment %s is not modelled" % src(st))
+        elif isinstance(st, ast.AugAssign) and isinstance(st.target, ast.Name):
+            old = self.env.get(st.target.id, ast.Name(id=st.target.id, ctx=ast.Load()))
+            self.env[st.target.id] = ast.BinOp(left=old, op=st.op, right=self.ev(st.value))
+        elif isinstance(st, ast.Expr) and isinstance(st.value, ast.Call) and src(st.value.func) == "%s.append" % self.L:
+            a = st.value.args[0] if st.value.args else None
+            if not (isinstance(a, ast.Tuple) and len(a.elts) == 2):
+                raise _Unproved("appended element %s is not a (start, end) tuple" % src(st))
+            lo, hi = self.ev(a.elts[0]), self.ev(a.elts[1])
+            self.appends.append((lo, hi, self.E, st))
+            self.E = hi
+            self.appended = True
+        elif isinstance(st, ast.Expr) and isinstance(st.value, ast.Call) and self.L in src(st.value.func).split("."):
+            raise _Unproved("list operation %s is not modelled" % src(st))
+
+    def cond(self, test, pol):
+        t = test
+        if isinstance(t, ast.UnaryOp) and isinstance(t.op, ast.Not):
+            t, pol = t.operand, not pol
+        if isinstance(t, ast.Name) and t.id == self.L:
+            if pol != self.appended:
+                self.infeasible = True
+            return
+        if isinstance(t, ast.Compare) and len(t.ops) == 1:
+            try:
+                a, b = self.ev(t.left), self.ev(t.comparators[0])
+            except _Unproved:
+                return
+            op = type(t.ops[0])
+            if not pol:
+                op = {ast.Lt: ast.GtE, ast.LtE: ast.Gt, ast.Gt: ast.LtE, ast.GtE: ast.Lt}.get(op)
+            one = ast.Constant(1)
+            if op is ast.GtE:
+                self.facts.append((a, b))
+            elif op is ast.Gt:
+                self.facts.append((a, ast.BinOp(left=b, op=ast.Add(), right=one)))
+            elif op is ast.LtE:
+                self.facts.append((b, a))
+            elif op is ast.Lt:
+                self.facts.append((b, ast.BinOp(left=a, op=ast.Add(), right=one)))
+
+    def proves_ge(self, a, b):
+        """a >= b from syntactic equality of linear forms or one recorded fact x >= y with (a - b) - (x - y) a constant >= 0."""
+        c = _const_diff(a, b)
+        if c is not None:
+            return c >= 0
+        for x, y in self.facts:
+            d = _diff(ast.BinOp(left=a, op=ast.Sub(), right=b), ast.BinOp(left=x, op=ast.Sub(), right=y))
+            if set(d) <= {"1"} and d.get("1", 0) >= 0:
+                return True
+        return False
+
+
+def _walk_events(t, events):
+    for ev in events:
+        if t.infeasible:
+            return
+        if ev[0] == "stmt":
+            st = ev[1]
+            if isinstance(st, (ast.For, ast.While)):
+                continue          # handled through the 'iter' event
+            t.stmt(st)
+        elif ev[0] == "cond":
+            t.cond(ev[1], ev[2])
+        elif ev[0] == "iter":
+            pass
+
+
+def _min_bin_times_bin(e):
+    """True for '<smallest coverage bin> * <COVERAGE_BIN> + c' with c <= 1 (bin start + 1 <= cluster start + 1)."""
+    lf = _lin(e)
+    c = lf.get("1", 0)
+    atoms_ = [k for k in lf if k != "1"]
+    if len(atoms_) != 1 or lf[atoms_[0]] != 1 or c > 1:
+        return False
+    a = atoms_[0]
+    return bool(re.match(r"^(sorted\([\w.]+?(\.keys\(\))?\)\[0\]|min\([\w.]+?(\.keys\(\))?\)) \* [\w.]*COVERAGE_BIN$", a))
+
+
+def d6(prog, ctx):
+    f = prog.func(AP, "AlignmentCollector.split_coverage_regions")
+    g = f.args.args[0].arg
+    rets = [r for r in walk_no_nested(f) if isinstance(r, ast.Return)]
+    names = {r.value.id for r in rets if isinstance(r.value, ast.Name)}
+    if len(names) != 1:
+        raise AnalysisError("split_coverage_regions: the returned region list variable was not identified (%s)" % sorted(names))
+    L = names.pop()
+    top_loops = [s for s in f.body if isinstance(s, (ast.While, ast.For))]
+    n_paths = n_obl = 0
+    fresh = [0]
+    reported = set()
+
+    def fail(node, construct, msg):
+        key = (construct, msg[:60])
+        if key not in reported:
+            reported.add(key)
+            ctx.fail("D6", node, f._qualname, construct, msg)
+
+    def check_appends(t, first_E_is_start):
+        nonlocal n_obl
+        for i, (lo, hi, Eb, st) in enumerate(t.appends):
+            n_obl += 1
+            lo_s, _ = _strip_clamp(lo, "max", src(t.g0))
+            Eb_s, _ = _strip_clamp(Eb, "min", src(t.g1))
+            limit = ast.BinOp(left=Eb_s, op=ast.Add(), right=ast.Constant(1))
+            if t.proves_ge(ast.BinOp(left=Eb, op=ast.Add(), right=ast.Constant(1)), lo) or t.proves_ge(limit, lo_s):
+                continue
+            if i == 0 and first_E_is_start and lo_s is not lo and _min_bin_times_bin(lo_s):
+                continue       # max(first_bin * BIN + c, g0), c <= 1: the first sub-region starts at the cluster start
+            fail(st, src(st), "sub-region (%s, %s) is appended when the list covers the cluster only up to %s: positions between "
+                 "them belong to no sub-region and a read lying there is never fetched" % (src(lo), src(hi), src(Eb)))
+
+    # 1. whole-function paths (loops taken 0 or 1 times)
+    for p in flow.paths(f):
+        if p.exit != "return" or p.exit_node is None:
+            continue
+        t = _Tiling(L, g, fresh)
+        try:
+            # nested loops inside the top-level loop body: havoc what they assign when they appear on the path
+            for ev in p.events:
+                if ev[0] == "iter" and ev[1] not in top_loops:
+                    pass
+            _walk_path(t, p, top_loops)
+        except _Unproved as e:
+            fail(p.exit_node, src(p.exit_node), "cannot follow the region list on path %s: %s" % (p.describe()[:120], e))
+            continue
+        if t.infeasible:
+            continue
+        n_paths += 1
+        rv = p.exit_node.value
+        if isinstance(rv, ast.List) and len(rv.elts) == 1 and src(rv.elts[0]) == g:
+            continue                                     # the whole cluster as one region
+        if not (isinstance(rv, ast.Name) and rv.id == L):
+            fail(p.exit_node, src(p.exit_node), "returns something that is neither the region list nor [%s]" % g)
+            continue
+        check_appends(t, True)
+        n_obl += 1
+        if not t.proves_ge(t.E, t.g1):
+            fail(p.exit_node, "%s on path %s" % (src(p.exit_node), _short(p)),
+                 "the returned list covers the cluster only up to %s on the path [%s]; nothing on this path shows that this reaches "
+                 "%s, so reads in the tail of the cluster belong to no sub-region (%s)"
+                 % (src(t.E), p.describe()[:160], src(t.g1), "the list is empty" if not t.appended else "last region ends early"))
+    # 2. loop-carried contiguity: two consecutive iterations of every top-level loop that appends
+    for lp in top_loops:
+        if not any(isinstance(c, ast.Call) and src(c.func) == "%s.append" % L for c in ast.walk(lp)):
+            continue
+        bodies = flow.block_paths(lp.body, "split_coverage_regions loop body")
+        for p1 in bodies:
+            for p2 in bodies:
+                t = _Tiling(L, g, fresh)
+                t.appended = True
+                t.E = ast.Name(id="E_prev", ctx=ast.Load())
+                try:
+                    _walk_path(t, p1, [])
+                    k = len(t.appends)
+                    _walk_path(t, p2, [])
+                except _Unproved as e:
+                    fail(lp, "loop at line %d" % lp.lineno, "cannot follow the region list through two iterations: %s" % e)
+                    continue
+                if t.infeasible or len(t.appends) <= k or k == 0:
+                    continue
+                t.appends = t.appends[k:]
+                n_paths += 1
+                check_appends(t, False)
+    ctx.floor("D6", "paths / tiling obligations of split_coverage_regions", n_obl, 4)
+    if not reported:
+        ctx.ok("D6", "%s:%d" % (AP, f.lineno), "split_coverage_regions: %d paths, %d obligations - every appended sub-region starts no later "
+               "than one past the covered prefix, and every returned list reaches %s[1] (or is [%s])" % (n_paths, n_obl, g, g))
+
+
+def _short(p):
+    return " / ".join(("" if pol else "not ") + src(t)[:40] for t, pol in p.conds()[-3:])
+
+
+def _walk_path(t, p, top_loops):
+    """Walk the events of a path; a nested loop (not in top_loops) havocs the names it assigns, whether taken 0 or 1 times."""
+    skip_until = None
+    events = p.events
+    i = 0
+    while i < len(events):
+        ev = events[i]
+        if t.infeasible:
+            return
+        if ev[0] == "stmt" and isinstance(ev[1], (ast.For, ast.While)):
+            lp = ev[1]
+            if lp not in top_loops:
+                t.havoc(lp)
+                # skip the events of the loop body (they are statements whose _parent chain contains lp)
+                i += 1
+                while i < len(events) and _inside(events[i], lp):
+                    i += 1
+                continue
+        elif ev[0] == "stmt":
+            t.stmt(ev[1])
+        elif ev[0] == "cond":
+            t.cond(ev[1], ev[2])
+        i += 1
+
+
+def _inside(ev, lp):
+    if ev[0] == "iter":
+        return ev[1] is lp
+    node = ev[1]
+    if ev[0] == "cond" and node is lp.test:
+        return True
+    cur = getattr(node, "_parent", None)
+    while cur is not None:
+        if cur is lp:
+            return True
+        cur = getattr(cur, "_parent", None)
+    return False
+
+
+# ---------------------------------------------------------------------------
+# D7: the candidate index range of the in-memory storage is a superset of the overlapping alignments; BAM sibling is closed
+# ---------------------------------------------------------------------------
+
+def _bin_offset(e, env, region_name, k):
+    """e == (region[k] // BIN) + c  ->  c, else None."""
+    lf = linform.linform(e, env)
+    c = lf.get("1", 0)
+    at = [a for a in lf if a != "1"]
+    if len(at) == 1 and lf[at[0]] == 1 and re.match(r"^%s\[%d\] // [\w.]*COVERAGE_BIN$" % (re.escape(region_name), k), at[0]):
+        return c
+    return None
+
+
+def d7(prog, ctx):
+    cls = prog.cls(AP, "InMemoryAlignmentStorage")
+    meths = prog.methods_of(cls, inherited=False)
+    ga, add, fill = meths.get("get_alignments"), meths.get("add_alignment"), meths.get("fill_index")
+    if not (ga and add and fill):
+        raise AnalysisError("InMemoryAlignmentStorage: get_alignments / add_alignment / fill_index not found")
+    n = 0
+    # (i) meaning of the two index tables, from add_alignment: key expression and first-occurrence guard
+    keys = {}
+    for st in walk_no_nested(add):
+        if isinstance(st, ast.If) and isinstance(st.test, ast.Compare) and isinstance(st.test.ops[0], ast.NotIn):
+            tbl = dotted(st.test.comparators[0])
+            stores = [s for s in st.body if isinstance(s, ast.Assign) and isinstance(s.targets[0], ast.Subscript)
+                      and dotted(s.targets[0].value) == tbl]
+            if tbl and stores:
+                defs = local_env(add)
+                keys[tbl.split(".")[-1]] = (src(symexec.subst(st.test.left, defs)), src(stores[0].value))
+    want = {"alignment_start_index": r"^alignment\.reference_start // [\w.]*COVERAGE_BIN$",
+            "alignment_end_index": r"^\(alignment\.reference_end - 1\) // [\w.]*COVERAGE_BIN$"}
+    for tbl, rx in want.items():
+        n += 1
+        if tbl not in keys or not re.match(rx, keys[tbl][0]) or keys[tbl][1] != "self.counter":
+            ctx.fail("D7", add, "InMemoryAlignmentStorage.add_alignment", tbl, "the %s table is no longer 'first stored index per 256-bp bin of the "
+                     "alignment %s' (found key %s -> %s): the sub-region slices computed from it are wrong"
+                     % (tbl, "start" if "start" in tbl else "closed end", keys.get(tbl, ("?", "?"))[0], keys.get(tbl, ("?", "?"))[1]))
+        else:
+            ctx.ok("D7", "%s:%d" % (AP, add.lineno), "%s[bin] = first stored index whose %s falls into bin (key %s, guarded by 'not in')"
+                   % (tbl, "start" if "start" in tbl else "closed end", keys[tbl][0]))
+    # (ii) fill_index: descending scans from (last bin of the cluster + c), c >= 1, seeded with len(storage)
+    fenv = local_env(fill)
+    fill_top = None
+    for lp in [l for l in walk_no_nested(fill) if isinstance(l, ast.For)]:
+        n += 1
+        it = lp.iter
+        okr = isinstance(it, ast.Call) and src(it.func) == "range" and len(it.args) == 3 and src(it.args[2]) == "-1"
+        c_hi = _bin_offset(it.args[0], fenv, "self.region", 1) if okr else None
+        c_lo = _bin_offset(it.args[1], fenv, "self.region", 0) if okr else None
+        if not okr or c_hi is None or c_hi < 1 or c_lo is None or c_lo > -1:
+            ctx.fail("D7", lp, "InMemoryAlignmentStorage.fill_index", src(lp.iter), "the index is not completed by a descending scan over every bin "
+                     "from one past the cluster's last bin down to its first bin: slices for some sub-regions hit missing or wrong entries")
+        else:
+            fill_top = c_hi if fill_top is None else min(fill_top, c_hi)
+            ctx.ok("D7", "%s:%d" % (AP, lp.lineno), "fill_index scans bins last+%d .. first, descending" % c_hi)
+    # (iii) get_alignments: slice bounds
+    region = ga.args.args[1].arg
+    loops = [l for l in walk_no_nested(ga) if isinstance(l, ast.For) and isinstance(l.iter, ast.Call) and src(l.iter.func) == "range"
+             and len(l.iter.args) == 2]
+    if len(loops) != 1:
+        raise AnalysisError("InMemoryAlignmentStorage.get_alignments: index-range loop not found")
+    lp = loops[0]
+    env = local_env(ga)
+    lo_e, hi_e = symexec.subst(lp.iter.args[0], env), symexec.subst(lp.iter.args[1], env)
+
+    def table_key(e, tbl):
+        if isinstance(e, ast.Subscript) and dotted(e.value) == "self." + tbl:
+            return e.slice
+        return None
+    n += 2
+    ks, ke = table_key(lo_e, "alignment_end_index"), table_key(hi_e, "alignment_start_index")
+    c_s = _bin_offset(ks, {}, region, 0) if ks is not None else None
+    c_e = _bin_offset(ke, {}, region, 1) if ke is not None else None
+    if c_s is None or c_s > 0:
+        ctx.fail("D7", lp, "InMemoryAlignmentStorage.get_alignments", "range start %s" % src(lo_e), "the first candidate must be "
+                 "alignment_end_index[bin(%s[0]) + c] with c <= 0 (first stored alignment that ends in or after the bin of the region start); "
+                 "found %s - alignments overlapping the region start are skipped" % (region, src(lo_e)))
+    else:
+        ctx.ok("D7", "%s:%d" % (AP, lp.lineno), "slice starts at alignment_end_index[bin(%s[0])%+d]: nothing that ends at/after the region start is skipped" % (region, c_s))
+    if c_e is None or c_e < 1:
+        ctx.fail("D7", lp, "InMemoryAlignmentStorage.get_alignments", "range end %s" % src(hi_e), "the exclusive upper bound must be "
+                 "alignment_start_index[bin(%s[1]) + c] with c >= 1 (first stored alignment that starts after the bin of the region end); found %s - "
+                 "alignments that start inside the last 256-bp bin of the requested region are returned for no sub-region (--high_memory)"
+                 % (region, src(hi_e)))
+    elif fill_top is not None and c_e > fill_top:
+        ctx.fail("D7", lp, "InMemoryAlignmentStorage.get_alignments", "range end %s" % src(hi_e), "looks up bin(%s[1])+%d but fill_index only fills "
+                 "up to last bin+%d: KeyError for the last sub-region" % (region, c_e, fill_top))
+    else:
+        ctx.ok("D7", "%s:%d" % (AP, lp.lineno), "slice ends at alignment_start_index[bin(%s[1])%+d] (filled by fill_index): every alignment starting "
+               "at or before the region end is a candidate" % (region, c_e))
+    # exact filter on candidates and a yield per candidate
+    n += 1
+    ys = [y for y in ast.walk(lp) if isinstance(y, ast.Yield)]
+    gs = [src(g_.test) for y in ys for g_ in flow.guards_of(y, stop=lp)] if ys else []
+    want_g = "overlaps(%s, (alignment.reference_start, alignment.reference_end - 1))" % region
+    jumps = [x for x in ast.walk(lp) if isinstance(x, (ast.Break, ast.Continue, ast.Return))]
+    if len(ys) != 1 or gs != [want_g] or jumps:
+        ctx.fail("D7", lp, "InMemoryAlignmentStorage.get_alignments", "candidate filter", "every candidate must be yielded exactly when it overlaps the "
+                 "closed region (found guards %s%s)" % (gs, ", early exit" if jumps else ""))
+    else:
+        ctx.ok("D7", "%s:%d" % (AP, ys[0].lineno), "candidates are yielded iff %s" % want_g)
+    fi = [c for c in walk_no_nested(ga) if isinstance(c, ast.Call) and src(c.func) == "self.fill_index"]
+    if not fi or fi[0].lineno > lp.lineno:
+        ctx.fail("D7", ga, "InMemoryAlignmentStorage.get_alignments", "self.fill_index()", "the index is not completed before it is used")
+    # (iv) BAM sibling: closed region -> half-open fetch
+    n += 1
+    st_ = prog.func(AP, "BAMOnlineMerger._set")
+    fetch = [c for c in ast.walk(st_) if isinstance(c, ast.Call) and isinstance(c.func, ast.Attribute) and c.func.attr == "fetch"]
+    okf = False
+    if len(fetch) == 1 and len(fetch[0].args) >= 3:
+        d0 = _const_diff(fetch[0].args[1], ast.parse("self.start", mode="eval").body)
+        d1_ = _const_diff(fetch[0].args[2], ast.parse("self.end", mode="eval").body)
+        okf = d0 is not None and d0 <= 0 and d1_ is not None and d1_ >= 1
+    bg = prog.func(AP, "BAMAlignmentStorage.get_alignments")
+    mk = [c for c in ast.walk(bg) if isinstance(c, ast.Call) and call_name(c) == "BAMOnlineMerger"]
+    okm = len(mk) == 1 and len(mk[0].args) >= 4 and src(mk[0].args[2]) == "region[0]" and src(mk[0].args[3]) == "region[1]"
+    if not okf or not okm:
+        ctx.fail("D7", fetch[0] if fetch else st_, "BAMOnlineMerger._set / BAMAlignmentStorage.get_alignments", "fetch bounds",
+                 "the closed region (start, end) must be fetched as the half-open interval [start, end + 1): alignments starting at the last "
+                 "position of a sub-region are not fetched")
+    else:
+        ctx.ok("D7", "%s:%d" % (AP, fetch[0].lineno), "BAM storage fetches [region[0], region[1] + 1): the closed region")
+    ctx.floor("D7", "index-table, fill, slice-bound and fetch obligations", n, 7)
+
+
+def local_env(func):
+    """name -> defining expression for locals assigned exactly once at statement level (substituted transitively)."""
+    counts, defs = {}, {}
+    for st in walk_no_nested(func):
+        if isinstance(st, ast.Assign) and len(st.targets) == 1 and isinstance(st.targets[0], ast.Name):
+            counts[st.targets[0].id] = counts.get(st.targets[0].id, 0) + 1
+            defs[st.targets[0].id] = st.value
+        elif isinstance(st, (ast.AugAssign,)) and isinstance(st.target, ast.Name):
+            counts[st.target.id] = counts.get(st.target.id, 0) + 2
+        elif isinstance(st, (ast.For,)):
+            for n_ in ast.walk(st.target):
+                if isinstance(n_, ast.Name):
+                    counts[n_.id] = counts.get(n_.id, 0) + 2
+    env = {}
+    for k, v in defs.items():
+        if counts[k] == 1:
+            env[k] = v
+    # transitive closure (bounded)
+    for _ in range(4):
+        env = {k: symexec.subst(v, {a: b for a, b in env.items() if a != k}) for k, v in env.items()}
+    return env
+
+
 def run(prog, ctx):
     ctx.rule("D5", "every mutable attribute initialised by a storage class's __init__ is re-initialised to the same value by its "
                    "reset() (and base reset is chained); the duplicate search loops have no early exit")
@@ -366,7 +841,17 @@ def run(prog, ctx):
     d3(prog, ctx)
     d4(prog, ctx)
     d5(prog, ctx)
-    ctx.assume("whether coverage-valley splitting and the per-region re-fetch return every overlapping alignment is bin arithmetic on "
-               "runtime coordinates and is NOT decided (a defect of InMemoryAlignmentStorage.get_alignments in exactly that part is "
-               "described in DESIGN.md section 7)")
+    ctx.rule("D6", "split_coverage_regions tiles the cluster: walking every syntactic path (loops 0/1 times, plus two consecutive "
+                   "iterations of the splitting loop) with a ghost 'covered up to' expression, every appended (start, end) has "
+                   "start <= covered + 1 in linear normal form (clamps to the cluster bounds stripped), and every returned list either "
+                   "is [genomic_region] or provably reaches genomic_region[1] (syntactically, or by a path condition)")
+    ctx.rule("D7", "InMemoryAlignmentStorage: index tables keep the first stored index per start / closed-end bin; fill_index scans "
+                   "descending from last bin + c (c >= 1); get_alignments slices [end_index[bin(region[0]) + a], start_index[bin(region[1]) + b]) "
+                   "with a <= 0, 1 <= b <= c, and yields a candidate iff it overlaps the closed region; the BAM sibling fetches "
+                   "[region[0], region[1] + 1)")
+    d6(prog, ctx)
+    d7(prog, ctx)
+    ctx.assume("D6/D7 take as given that the coverage bins of a cluster are exactly the 256-bp bins its alignments touch "
+               "(AbstractAlignmentStorage.add_alignment) and that stored alignments are sorted by start (BAM order through the priority-queue merger); "
+               "where the valleys fall is runtime data and is not decided - only that wherever they fall, the pieces cover the cluster")
     ctx.assume("duplicate suppression and equality of counts are value-level and not decided")
